@@ -16,6 +16,8 @@ def port_policy(caller, callee, depth):
 
 
 def check(ctx):
+    from ..lib import discarded_results
+    ctx.sub(discarded_results, 'C01.S6', ('qstrader/broker/',), 'balances and aggregates are computed by the steps the code actually applies to each item')
     M = ctx.M
     ctx.sub(s1_ownership)
     ctx.sub(s2_deltas)
